@@ -164,6 +164,13 @@ func iroundH(x float64) int {
 
 func predsOf(a *Anchor) []predEv {
 	switch a.Fam {
+	case "polygamma5":
+		if a.Fn == "PolygammaRecur" {
+			return append(polyPreds5(a.K, a.x), polyPreds5(a.K, a.x+1)...)
+		}
+		return polyPreds5(a.K, a.x)
+	case "zeta5":
+		return zetaPreds5(a.x)
 	case "sincospi":
 		return sinCosPreds(a.Fn, a.x)
 	case "igamma":
@@ -210,45 +217,12 @@ func predsOf(a *Anchor) []predEv {
 		}
 		return ev
 	case "polygamma":
-		x, n := a.x, float64(a.K)
-		lim := 0.4*15 + 4*n
-		if x < 0 {
-			isInt := math.Floor(x) == x
-			ev := []predEv{{"polygamma_imp|x<0.0", x, 0, 0.5, true}, {"polygamma_imp|math.Floor(x)==x", math.Floor(x), x, 0.5, isInt},
-				{"polygamma_imp|n&1==1", float64(a.K & 1), 1, 1, a.K&1 == 1}}
-			if !isInt {
-				ev = append(ev, predEv{"poly_cot_pi|index&1==1", float64((a.K - 1) & 1), 1, 1, (a.K-1)&1 == 1})
-			}
-			return ev
-		}
-		return []predEv{{"polygamma_imp|x<0.0", x, 0, 0.5, x < 0}, {"polygamma_imp|x<small_x_limit", x, math.Min(5/n, 0.25), 0.25, x < math.Min(5/n, 0.25)},
-			{"polygamma_imp|x>0.4*digitsBase10+4.0*float64(n)", x, lim, 0.5, x > lim}, {"polygamma_imp|x==1", x, 1, 0, x == 1}, {"polygamma_imp|x==0.5", x, 0.5, 0, x == 0.5}}
+		return polyPreds5(a.K, a.x)
 	case "logerfc":
 		x := a.x
 		return []predEv{{"LogErfc|x*x<2.4607833005759251e-02", x * x, 2.4607833005759251e-02, 0, x*x < 2.4607833005759251e-02}, {"LogErfc|x>8.0", x, 8, 0, x > 8}}
 	case "zeta":
-		s := a.x
-		ev := []predEv{{"zeta_imp|sc==0", 1 - s, 0, 1, s == 1}, {"zeta_imp|s>float64(PrecisionFloat64)", s, 53, 1, s > 53},
-			{"zeta_imp|math.Floor(s)==s", math.Floor(s), s, 0.5, math.Floor(s) == s}}
-		if math.Floor(s) == s {
-			v := int(s)
-			ev = append(ev, predEv{"zeta_imp|float64(v)==s", s, s, 0.5, true}, predEv{"zeta_imp|v<0", s, 0, 1, s < 0})
-			if v < 0 {
-				ev = append(ev, predEv{"zeta_imp|(-v&1)==1", float64(-v & 1), 1, 1, (-v&1) == 1})
-			} else {
-				ev = append(ev, predEv{"zeta_imp|(v&1)==0", float64(v & 1), 0, 1, (v&1) == 0})
-				if v&1 == 0 {
-					ev = append(ev, predEv{"zeta_imp|((v/2-1)&1)==1", float64((v/2 - 1) & 1), 1, 1, ((v/2-1)&1) == 1})
-				}
-			}
-			return ev
-		}
-		ev = append(ev, predEv{"zeta_imp|math.Abs(s)<rootEpsilon", math.Abs(s), 1.49012e-08, 0, false}, predEv{"zeta_imp|s<0", s, 0, 0.5, s < 0})
-		if s < 0 {
-			ev = append(ev, predEv{"zeta_imp|math.Floor(sc/2.0)==sc/2.0", math.Floor(s / 2), s / 2, 0.5, false},
-				predEv{"zeta_imp|s>float64(factorialMax)", 1 - s, 170, 1, 1-s > 170})
-		}
-		return ev
+		return zetaPreds5(a.x)
 	}
 	return nil
 }
